@@ -51,6 +51,13 @@ fn dispatch(cmd: &str, args: &[&str]) -> String {
         "BKDR" => bkd::bkdr(args),
         "RUN" => rt::run(args),
         "RUNPAIR" => rt::runpair(args),
+        "RUNRAW" => {
+            // like RUN, with every transmitted message also shown in full (in send order)
+            rt::RAW.store(true, std::sync::atomic::Ordering::SeqCst);
+            let r = rt::run(args);
+            rt::RAW.store(false, std::sync::atomic::Ordering::SeqCst);
+            r
+        }
         "GETF" => rt::getf(args),
         "UID" => uid::uid(args),
         "STOP" => stop::stop(args),
@@ -95,7 +102,9 @@ fn main() {
         let _ = tracing::subscriber::set_global_default(EverythingEnabled);
     }
     // start with the process-global program-uid counter beyond 16 bits: uids are 32-bit everywhere
-    for _ in 0..66_000 {
+    // (PHARNESS_UID_BUMP=0: a fresh process, as a user's CCP is - the first compiled program then gets the first uid)
+    let bump: u32 = std::env::var("PHARNESS_UID_BUMP").ok().and_then(|v| v.parse().ok()).unwrap_or(66_000);
+    for _ in 0..bump {
         let _ = portus::lang::Scope::new();
     }
     let stdin = std::io::stdin();
